@@ -5,7 +5,10 @@
 // the simulator. Everything else is the real thing. Outside simulated tasks the real locks are used.
 package verifsync
 
-import "sync"
+import (
+	"sync"
+	"unsafe"
+)
 
 type (
 	Once      = sync.Once
@@ -49,6 +52,7 @@ func (p *Pool) Get() any {
 			x := p.items[n-1]
 			p.items = p.items[:n-1]
 			PoolHits++
+			raceAcquire(dataPtr(x)) // like sync.Pool: the Put of an object happens before the Get that returns it
 			return x
 		}
 		if p.New != nil {
@@ -73,6 +77,7 @@ func (p *Pool) Put(x any) {
 		if p.epoch != Epoch {
 			p.items, p.epoch = nil, Epoch
 		}
+		raceReleaseMerge(dataPtr(x))
 		p.items = append(p.items, x)
 		return
 	}
@@ -98,6 +103,7 @@ func (m *Mutex) Lock() {
 		}
 		if b("mutex.lock", func() bool { return m.sim == 0 }) {
 			m.sim++
+			raceAcquire(unsafe.Pointer(m))
 			return
 		}
 	}
@@ -110,6 +116,7 @@ func (m *Mutex) TryLock() bool {
 			return false
 		}
 		m.sim++
+		raceAcquire(unsafe.Pointer(m))
 		return true
 	}
 	return m.mu.TryLock()
@@ -117,6 +124,7 @@ func (m *Mutex) TryLock() bool {
 
 func (m *Mutex) Unlock() {
 	if m.sim > 0 {
+		raceRelease(unsafe.Pointer(m))
 		m.sim--
 		return
 	}
@@ -136,6 +144,7 @@ func (m *RWMutex) Lock() {
 		}
 		if b("rwmutex.lock", func() bool { return m.writers == 0 && m.readers == 0 }) {
 			m.writers++
+			raceAcquire(unsafe.Pointer(m))
 			return
 		}
 	}
@@ -144,6 +153,7 @@ func (m *RWMutex) Lock() {
 
 func (m *RWMutex) Unlock() {
 	if m.writers > 0 {
+		raceRelease(unsafe.Pointer(m))
 		m.writers--
 		return
 	}
@@ -157,6 +167,7 @@ func (m *RWMutex) RLock() {
 		}
 		if b("rwmutex.rlock", func() bool { return m.writers == 0 }) {
 			m.readers++
+			raceAcquire(unsafe.Pointer(m))
 			return
 		}
 	}
@@ -165,6 +176,7 @@ func (m *RWMutex) RLock() {
 
 func (m *RWMutex) RUnlock() {
 	if m.readers > 0 {
+		raceReleaseMerge(unsafe.Pointer(m))
 		m.readers--
 		return
 	}
@@ -199,3 +211,6 @@ type rlocker RWMutex
 
 func (r *rlocker) Lock()   { (*RWMutex)(r).RLock() }
 func (r *rlocker) Unlock() { (*RWMutex)(r).RUnlock() }
+
+// dataPtr is the data word of an interface value (the pooled object's address for pointer-shaped values).
+func dataPtr(x any) unsafe.Pointer { return (*[2]unsafe.Pointer)(unsafe.Pointer(&x))[1] }
